@@ -251,7 +251,8 @@ class Frame:
                 self.empty = True
                 return
             if sequential:
-                for i in range(int(start), int(stop)):
+                rng = range(int(start), int(stop))
+                for i in (reversed(rng) if getattr(self, "reverse", False) else rng):
                     c2 = dict(ctr)
                     c2[name] = i
                     self.run_block(node.body, c2, depth + 1, ndim, True)
@@ -396,3 +397,12 @@ def run_numeric(handle, kwargs):
             sym_kwargs[k] = v
     run_kernel(handle, sym_kwargs)
     return {key: to_float(sroot) for key, (root, sroot) in roots.items()}, roots
+
+
+def run_sequential(handle, kwargs, reverse=False):
+    """cell-by-cell interpretation in C loop order (or the reversed order): schedule-dependence demo"""
+    fr = Frame(handle, kwargs)
+    fr.loops = []
+    fr.empty = False
+    fr.reverse = reverse
+    fr.run_block(handle.kernel.body, {}, 0, _loop_depth(handle.kernel.body), True)
